@@ -385,6 +385,10 @@ func (e *Engine) assignPhis(fr *frame, s *State, b *ssa.BasicBlock, predIdx int)
 			facts = append(facts, fact{key: "D" + e.vid(phi), nonnil: e.isDeepNN(s, src)})
 		}
 	}
+	if len(targets) > 0 || len(facts) > 0 {
+		// registers are re-assigned here: memo keys that mention them (index registers, base pointers) go stale
+		s.loadMemo = nil
+	}
 	s.AssignParallel(targets, vals)
 	for _, f := range facts {
 		delete(s.nonnil, f.key)
@@ -500,10 +504,19 @@ func (e *Engine) runBlock(fr *frame, b *ssa.BasicBlock, final bool) {
 			return
 		case *ssa.Call:
 			fr.recCut = false
+			// len/cap/append cannot write into an existing object of another type: the load memo survives them
+			keepMemo := false
+			if b, ok := in.Common().Value.(*ssa.Builtin); ok && (b.Name() == "len" || b.Name() == "cap" || b.Name() == "append") {
+				keepMemo = true
+			}
+			memo := st.loadMemo
 			st.loadMemo = nil
 			ns := e.call(fr, st, in)
 			if ns != nil {
 				ns.loadMemo = nil
+				if keepMemo {
+					ns.loadMemo = memo
+				}
 			}
 			if fr.recCut {
 				if fr.recBlocks == nil {
